@@ -88,6 +88,16 @@ def ndNormIdx (n : Nat) (k : Int) : Option Nat :=
 def ndGet (a : NdArr K) (key : List Int) : Option K :=
   if key.length = a.shape.length then ((List.zipWith ndNormIdx a.shape key).mapM id).map a.get else none
 
+/-- `os.path.splitext(p)[-1]` (posix): from the last `.` of the last path component, provided a character other than `.` precedes it there;
+`""` otherwise -/
+def splitExt (p : String) : String :=
+  let base := (p.toList.reverse.takeWhile (· ≠ '/')).reverse
+  let extRev := base.reverse.takeWhile (· ≠ '.')
+  if base.contains '.' then
+    let stem := base.take (base.length - extRev.length - 1)
+    if stem.any (· ≠ '.') then String.ofList ('.' :: extRev.reverse) else ""
+  else ""
+
 /-! ### driver side: arrays from / to flat element lists (C order) -/
 
 /-- flat offset of a multi-index (C order) -/
